@@ -25,7 +25,7 @@ class LifeWorld(World):
         self.rchan = None
         self.end_body = False
         self.fail_body = False
-        self.cnt = {s: {"ends": 0, "cbgot": 0, "rgot": 0, "eof": False, "rerr": 0} for s in "LR"}
+        self.cnt = {s: {"ends": 0, "cbgot": 0, "rgot": 0, "eof": False, "rerr": 0, "tmo": 0, "operr": 0} for s in "LR"}
         self.cl_error = ""
 
     # the body of the remote_exec: park until told to end (the ops of side R are applied to its channel by the driver)
@@ -62,7 +62,7 @@ class LifeWorld(World):
         c = self.cnt[side]
         return {"alive": alive, "reg": cid in factory._channels,
                 "cb": "none" if ent is None else ("plain" if ent[1] is gateway_base.NO_ENDMARKER_WANTED else "end"),
-                "ends": c["ends"], "cbgot": c["cbgot"], "rgot": c["rgot"], "eof": c["eof"], "rerr": c["rerr"],
+                "ends": c["ends"], "cbgot": c["cbgot"], "rgot": c["rgot"], "eof": c["eof"], "rerr": c["rerr"], "tmo": c["tmo"], "operr": c["operr"],
                 "closed": bool(alive and chan._closed), "rc": bool(alive and chan._receiveclosed.is_set()),
                 "hasq": bool(alive and chan._items is not None), "queue": q,
                 "errs": len(chan._remoteerrors) if alive else 0}
@@ -83,13 +83,18 @@ class LifeWorld(World):
             raise RuntimeError("the body did not start")
         for name, side, kind in self.cl_ops:
             chan = lchan if side == "L" else self.rchan
-            if name == "send":
-                chan.send(1)
-            elif name == "setcb":
-                if kind == "end":
-                    chan.setcallback(self._cb(side), endmarker="ENDMARK")
-                else:
-                    chan.setcallback(self._cb(side))
+            if name in ("send", "setcb", "close"):
+                try:
+                    if name == "send":
+                        chan.send(1)
+                    elif name == "close":
+                        chan.close()
+                    elif kind == "end":
+                        chan.setcallback(self._cb(side), endmarker="ENDMARK")
+                    else:
+                        chan.setcallback(self._cb(side))
+                except (OSError, ValueError, TypeError, KeyError, RuntimeError):
+                    self.cnt[side]["operr"] += 1  # the model enables this operation, the real one raised
             elif name == "receive":
                 try:
                     chan.receive(timeout=5)
@@ -98,8 +103,8 @@ class LifeWorld(World):
                     self.cnt[side]["eof"] = True
                 except gateway_base.RemoteError:
                     self.cnt[side]["rerr"] += 1
-            elif name == "close":
-                chan.close()
+                except gateway_base.TimeoutError:
+                    self.cnt[side]["tmo"] += 1  # the model has an item or the endmarker in the queue, the real receive() found nothing
             elif name == "drop":
                 lchan = None
             elif name in ("bodyend", "bodyfail"):
